@@ -1831,3 +1831,39 @@ Proof.
 Qed.
 Lemma ex_complete : BlocksComplete ex_c.
 Proof. unfold BlocksComplete. fin_list. fin_forall ltac:(cbn [fst snd]; split; vm_compute; discriminate). Qed.
+
+(* ================================================================================================ *)
+(* round 3: stores that come from read(): RF rows WITHOUT a type entry (rf_library.type is empty      *)
+(* unless detect_rf_use=True).  EventLibrary.remove_duplicates passes str() for them (model: tag 0),  *)
+(* get_block decodes them as 'undefined' (model: tag_u).  The example store with the RF type table    *)
+(* emptied satisfies every hypothesis; its RF block decodes with tag_u before and after.              *)
+(* ================================================================================================ *)
+Definition ex_untyped : core :=
+  ex_c <| rf_l := mkLib (ldata (rf_l ex_c)) [] (lkeymap (rf_l ex_c)) (lnext (rf_l ex_c)) |>.
+
+Lemma exu_wf : StoreWf ex_untyped.
+Proof. fin_store_wf. Qed.
+Lemma exu_refs : RefsExist ex_untyped.
+Proof. fin_refs. Qed.
+Lemma exu_tags : TagsAgree rnd_shape_key rnd_grad_key rnd_rf_key ex_untyped.
+Proof.
+  apply tags_agree_intro; [exact exu_wf|exact exu_refs| |].
+  - apply shaped_intro. fin_list.
+    fin_forall ltac:(cbn [fst snd]; first [left; split; vm_compute; reflexivity|right; split; vm_compute; reflexivity]).
+  - apply (rf_uniform_intro ex_untyped None). fin_list. fin_forall ltac:(vm_compute; reflexivity).
+Qed.
+
+Theorem untyped_rf_example :
+  StoreWf ex_untyped /\ RefsExist ex_untyped /\ TagsAgree rnd_shape_key rnd_grad_key rnd_rf_key ex_untyped /\
+  lib_type (rf_l ex_untyped) 1 = None /\
+  rf_use_of (decode ex_untyped 5) = Some (Some tag_u) /\
+  (exists c', seq_dedup ex_untyped = Some c' /\ lib_type (rf_l c') 1 = None /\ rf_use_of (decode c' 5) = Some (Some tag_u)).
+Proof.
+  split; [exact exu_wf|]. split; [exact exu_refs|]. split; [exact exu_tags|].
+  split; [vm_compute; reflexivity|]. split; [vm_compute; reflexivity|].
+  destruct (seq_dedup ex_untyped) as [c'|] eqn:E; [|vm_compute in E; discriminate E].
+  exists c'. split; [reflexivity|].
+  assert (X : option_map (fun c' => (lib_type (rf_l c') 1, rf_use_of (decode c' 5))) (seq_dedup ex_untyped)
+              = Some (None, Some (Some tag_u))) by (vm_compute; reflexivity).
+  rewrite E in X. cbn [option_map] in X. inversion X as [[X1 X2]]. rewrite X1, X2. split; reflexivity.
+Qed.
